@@ -521,3 +521,55 @@ func expandedReturnPaths(p *core.Prog, f *ssa.Function, depth int) []xpath {
 	}
 	return out
 }
+
+// openSuccessConds: for every accepting condition `helper(...)#k == nil` (k the helper's error result) of a module helper, the
+// conditions of the helper's success paths are added (lifted into the caller's vocabulary). One variant per success path.
+func openSuccessConds(p *core.Prog, atoms []core.Atom, depth int) [][]core.Atom {
+	if depth > 2 {
+		return [][]core.Atom{atoms}
+	}
+	for i, a := range atoms {
+		n := a.Norm()
+		if !n.Sign || n.Cond.Op != "binop" || n.Cond.Name != "==" || !n.Cond.Args[1].IsConst("nil") {
+			continue
+		}
+		x := n.Cond.Args[0]
+		if x.Op != "extract" || len(x.Args) != 1 || x.Args[0].Op != "call" {
+			continue
+		}
+		site, ok := x.Args[0].Val.(*ssa.Call)
+		if !ok {
+			continue
+		}
+		h := site.Common().StaticCallee()
+		if h == nil || !core.InModule(h) || len(h.Blocks) == 0 {
+			continue
+		}
+		res := h.Signature.Results()
+		k := 0
+		fmt.Sscan(x.Name, &k)
+		if k != res.Len()-1 || !isErrorType(res.At(k).Type()) {
+			continue
+		}
+		rps, complete := core.ReturnPaths(p, h, 500)
+		if !complete {
+			continue
+		}
+		var out [][]core.Atom
+		for _, rp := range rps {
+			if rp.Ret.Block().Comment == "recover" || !rp.Results[k].IsConst("nil") {
+				continue
+			}
+			variant := append([]core.Atom{}, atoms[:i]...)
+			for _, ca := range rp.Atoms {
+				variant = append(variant, core.Atom{Cond: liftThrough(p, ca.Cond, site), Sign: ca.Sign, Block: a.Block})
+			}
+			variant = append(variant, atoms[i+1:]...)
+			out = append(out, openSuccessConds(p, variant, depth+1)...)
+		}
+		if len(out) > 0 {
+			return out
+		}
+	}
+	return [][]core.Atom{atoms}
+}
